@@ -290,6 +290,10 @@ def trackWitnesses : List (String × List MOp × Query) := [
   ("C08-bucket-misses-delete", [.put (recA "k1" 1), .put (recA "k2" 1)] ++ buildA ++ [.del "k2"], qA1),
   ("C08-bucket-build-drops-pending",
     [.put (recA "k1" 1), .beginBuild [.field "a"], .snapshot [.field "a"], .put (recA "k2" 1), .build [.field "a"], .drain [.field "a"]],
+    qA1),
+  -- the builder has built and not drained yet; a save arrives (buffered); a reader comes
+  ("C08-bucket-served-before-drain",
+    [.put (recA "k1" 1), .beginBuild [.field "a"], .snapshot [.field "a"], .build [.field "a"], .put (recA "k2" 1)],
     qA1)]
 
 def trackFindings (cfg : Cfg) : List String :=
@@ -319,14 +323,16 @@ def beforeFix : Cfg := {
   scanEqCanonical := false, bucketPagingAfterFilter := false, scanPagingAfterFilter := false, labelReattach := false,
   pagedQueriesBypass := false, bucketChecksAttr := false, lookupInDedupes := true, unionDedupes := true,
   bucketWindowTimeOnly := false,
-  bucketNotifyInsert := true, bucketNotifyUpdate := true, bucketNotifyDelete := true, bucketPendingReplayed := true }
+  bucketNotifyInsert := true, bucketNotifyUpdate := true, bucketNotifyDelete := true, bucketPendingReplayed := true,
+  readerDrainsInFlight := false }
 
 /-- the facts of the tree as of this writing: special paths are not hinted, paged queries take the
     index walk, labelled filters are evaluated whole on the candidates, time-ordered candidates must
-    carry the timestamp, the key index ignores the window.  Left: equality on the scan route. -/
+    carry the timestamp, the key index ignores the window; a field bucket is served only once the
+    buffer of its build is drained.  Left: equality on the scan route. -/
 def current : Cfg := { beforeFix with
   excludesSpecialPaths := true, pagedQueriesBypass := true, labelReattach := true, bucketChecksAttr := true,
-  bucketWindowTimeOnly := true }
+  bucketWindowTimeOnly := true, readerDrainsInFlight := true }
 
 def repaired : Cfg := { current with scanEqCanonical := true }
 
@@ -363,7 +369,8 @@ theorem witness_attribute :
 
 theorem findings_beforeFix : findings beforeFix =
     ["C08-scan-equality-not-canonical", "C08-special-path-hinted", "C08-paging-before-residual",
-     "C08-indexed-leg-label-dropped", "C08-bucket-route-ignores-index-attribute", "C08-window-on-key-index"] := by decide
+     "C08-indexed-leg-label-dropped", "C08-bucket-route-ignores-index-attribute", "C08-window-on-key-index",
+     "C08-bucket-served-before-drain"] := by decide
 
 theorem findings_current : findings current = ["C08-scan-equality-not-canonical"] := by decide
 
@@ -387,10 +394,12 @@ example : findings { repaired with indexableOps := [.eq, .ne, .strIn, .i32In, .i
 example : findings { repaired with planOrBypassOnSubGroups := false } = ["C08-or-union-with-subgroups"] := by decide
 example : findings { repaired with lookupInDedupes := false } = ["C08-duplicate-candidates"] := by decide
 example : findings { repaired with bucketNotifyInsert := false } =
-    ["C08-bucket-misses-insert", "C08-bucket-build-drops-pending"] := by decide
+    ["C08-bucket-misses-insert", "C08-bucket-build-drops-pending", "C08-bucket-served-before-drain"] := by decide
 example : findings { repaired with bucketNotifyUpdate := false } = ["C08-bucket-misses-update"] := by decide
 example : findings { repaired with bucketNotifyDelete := false } = ["C08-bucket-misses-delete"] := by decide
-example : findings { repaired with bucketPendingReplayed := false } = ["C08-bucket-build-drops-pending"] := by decide
+example : findings { repaired with bucketPendingReplayed := false } =
+    ["C08-bucket-build-drops-pending", "C08-bucket-served-before-drain"] := by decide
+example : findings { repaired with readerDrainsInFlight := false } = ["C08-bucket-served-before-drain"] := by decide
 
 /-- Closed witness: were an update of an existing key not passed on, a record whose field moved from 1
     to 2 after the bucket was built would still be served for `a = 1`. -/
@@ -414,6 +423,15 @@ theorem bucket_tracks_store_current (h : List MOp) :
     ∀ b ∈ (runB current h).buckets, b.init = true → b.inFlight = false →
       b.ents = entsOf b.path (runB current h).store ∧ b.pending = [] :=
   bucket_tracks_store current (by decide) h
+
+/-- Closed witness: a bucket is `EqualityInitialized` as soon as `BuildEquality` returns, before its
+    builder has drained the buffer; a save that completed meanwhile sits in that buffer, and a reader
+    that comes now is served without it. -/
+theorem witness_bucket_served_before_drain :
+    let cfg := { repaired with readerDrainsInFlight := false }
+    let h := [MOp.put (recA "k1" 1), .beginBuild [.field "a"], .snapshot [.field "a"], .build [.field "a"], .put (recA "k2" 1)]
+    keysOf (bucketRouteS cfg (runB cfg h) qA1) = ["k1"] ∧ keysOf (scanRoute cfg (runB cfg h).store qA1) = ["k1", "k2"] ∧
+    bucketRouteS repaired (runB repaired h) qA1 = scanRoute repaired (runB repaired h).store qA1 := by decide
 
 /-- non-vacuity of the conditional theorem under the current facts: an unpaged key-ordered query
     over integer fields is `Aligned`, and the routes do return the same non-empty answer -/
@@ -449,6 +467,7 @@ structure Facts where
   bucketNotifyUpdate : Tri
   bucketNotifyDelete : Tri
   bucketPendingReplayed : Tri
+  readerDrainsInFlight : Tri
   /-- `GetOrBuildBucket` publishes the bucket in flight, then snapshots, builds, drains; `OnInsert` /
       `OnUpdate` / `OnDelete` buffer while in flight and apply otherwise -/
   bucketLifecycleStandard : Tri
@@ -463,7 +482,8 @@ def cfgOf (f : Facts) : Cfg := {
   lookupInDedupes := f.lookupInDedupes.isYes, unionDedupes := f.unionDedupes.isYes,
   bucketWindowTimeOnly := f.bucketWindowTimeOnly.isYes,
   bucketNotifyInsert := f.bucketNotifyInsert.isYes, bucketNotifyUpdate := f.bucketNotifyUpdate.isYes,
-  bucketNotifyDelete := f.bucketNotifyDelete.isYes, bucketPendingReplayed := f.bucketPendingReplayed.isYes }
+  bucketNotifyDelete := f.bucketNotifyDelete.isYes, bucketPendingReplayed := f.bucketPendingReplayed.isYes,
+  readerDrainsInFlight := f.readerDrainsInFlight.isYes }
 
 def unknownFact (f : Facts) : Option String :=
   if f.indexableOps.isNone then some "indexableHint operators" else
@@ -476,7 +496,7 @@ def unknownFact (f : Facts) : Option String :=
       f.scanPagingAfterFilter, f.labelReattach, f.pagedQueriesBypass, f.bucketChecksAttr, f.lookupInDedupes, f.unionDedupes,
       f.bucketWindowTimeOnly].any (· == .unknown) then some "a fact of GetByIndexStream / bucket_exec / bucket" else
   if !f.bucketLifecycleStandard.isYes then some "GetOrBuildBucket / OnInsert / OnUpdate / OnDelete shape" else
-  if [f.bucketNotifyInsert, f.bucketNotifyUpdate, f.bucketNotifyDelete, f.bucketPendingReplayed].any (· == .unknown) then
+  if [f.bucketNotifyInsert, f.bucketNotifyUpdate, f.bucketNotifyDelete, f.bucketPendingReplayed, f.readerDrainsInFlight].any (· == .unknown) then
     some "a bucket notification of SaveFunction / deleteHandler / DrainPending" else
   none
 
